@@ -244,3 +244,76 @@ def osdev_list_structure(chk, P, rule):
     strs = set(n2.get("s") for n2 in p.walk() if n2["k"] == "Str")
     okp = ord("[") in chars and ord(",") in chars and "]" in strs and "%c%s" in strs
     chk.inst(rule, p, "list-printer-separators", okp, "printer emits '[' then ',' between names and a closing ']' (chars %s)" % sorted(chr(c) for c in chars if c))
+
+
+def only_compared(f, params):
+    """AST check for R-CMP: the given value parameters occur only as operands of relational operators or plain copies"""
+    for n in f.walk():
+        if n["k"] == "Ref" and n["n"] in params:
+            p = f.par(n)
+            while p is not None and p["k"] in ("Cast", "Unary") and (p["k"] == "Cast" or p["op"] == "*"):
+                p = f.par(p)
+            if p is None:
+                return False
+            if p["k"] == "Binary" and p["op"] in ("<", ">", "<=", ">=", "==", "!="):
+                continue
+            a = assigned(p)
+            if a and a[1] == "=":
+                continue
+            if p["k"] in ("Var",):
+                continue
+            return False
+    return True
+
+
+def best_of(chk, P, rule="R-CMP"):
+    """hwloc__update_best_target / _initiator over all orderings x found x flag (exhaustive because the value parameters
+    are only compared): HIGHER_FIRST keeps the max, LOWER_FIRST the min, ties keep the first, !found takes the new one"""
+    u = P.unit("memattrs.c")
+    n = 0
+    body = ""
+    cases = []
+    for fn, objt, mk in (("hwloc__update_best_target", "hwloc_obj_t", "(hwloc_obj_t)%d"), ):
+        f = P.need_func(fn, "memattrs.c")
+        ok = only_compared(f, ("new_value",))
+        chk.inst(rule, f, "only-compared", ok, "new_value occurs only in comparisons and plain copies: three orderings are exhaustive")
+        for found in (0, 1):
+            for keep in (0, 1, 4):
+                for new in (4, 5, 6):
+                    nm = "w_bt_%d_%d_%d" % (found, keep, new)
+                    body += ("int %s(void){ hwloc_obj_t b=(hwloc_obj_t)1; hwloc_uint64_t bv=5; int found=%d; "
+                             "%s(&b,&bv,&found,(hwloc_obj_t)2,%d,%d); return (int)bv*100 + (b==(hwloc_obj_t)2)*10 + found; }\n" % (nm, found, fn, new, keep))
+                    take = (not found) or (keep and new > 5) or (not keep and new < 5)
+                    exp = (new if take else 5) * 100 + (10 if take else 0) + 1
+                    cases.append((nm, exp, f))
+    g = P.need_func("hwloc__update_best_initiator", "memattrs.c")
+    oki = only_compared(g, ("new_value",))
+    chk.inst(rule, g, "only-compared", oki, "new_value occurs only in comparisons and plain copies")
+    for found in (0, 1):
+        for keep in (0, 1):
+            for new in (4, 5, 6):
+                nm = "w_bi_%d_%d_%d" % (found, keep, new)
+                body += ("int %s(void){ struct hwloc_internal_location_s l1, l2, *b=&l1; hwloc_uint64_t bv=5; int found=%d; "
+                         "hwloc__update_best_initiator(&b,&bv,&found,&l2,%d,%d); return (int)bv*100 + found; }\n" % (nm, found, new, keep))
+                take = (not found) or (keep and new > 5) or (not keep and new < 5)
+                cases.append((nm, (new if take else 5) * 100 + 1, g))
+    res = fold.run("memattrs_best", u.path, P.db[u.path], body)
+    fold.need_folded(res, [c[0] for c in cases], "best-of witnesses")
+    bad = {}
+    for nm, exp, f in cases:
+        n += 1
+        if res[nm] != exp:
+            bad.setdefault(f.name, []).append("%s -> %s (expected %s)" % (nm, res[nm], exp))
+    for f in (P.func("hwloc__update_best_target", "memattrs.c"), g):
+        chk.inst(rule, f, "orderings", f.name not in bad, "; ".join(bad.get(f.name, [])[:3]) or "all found x flag x ordering cases keep the documented best (ties keep the first)")
+    # the flag handed in is the attribute's HIGHER_FIRST bit at every call site
+    for caller in ("hwloc_memattr_get_best_target", "hwloc_memattr_get_best_initiator"):
+        f = P.need_func(caller, "memattrs.c")
+        k = 0
+        for c in f.calls(("hwloc__update_best_target", "hwloc__update_best_initiator")):
+            k += 1
+            a = strip(args(c)[-1])
+            ok = a["k"] == "Binary" and a["op"] == "&" and "HIGHER_FIRST" in src(a) and "flags" in src(a)
+            chk.inst(rule, f, "flag-arg#%d" % k, ok, "ordering flag argument is `<attr>->flags & HWLOC_MEMATTR_FLAG_HIGHER_FIRST` (%s)" % src(a), loc=f.loc(c))
+            n += 1
+    return n
